@@ -70,19 +70,27 @@ def trace(name):
     return dict(_traces())[name]
 
 
-def _sizes(min_n, max_n):
-    """Most mass on small n (collinear / tie phenomena appear at n = 3), tail up to max_n."""
+def _sizes(min_n, max_n, big_n=None):
+    """Most mass on small n (collinear / tie phenomena appear at n = 3), tail up to max_n; with
+    big_n a further ~1/9 of the cases is large (fast paths / chunking for big inputs)."""
     small_hi = min(max_n, max(min_n, 16))
-    return st.one_of(st.integers(min_n, small_hi), st.integers(min_n, small_hi),
-                     st.integers(min_n, max_n))
+    base = [st.integers(min_n, small_hi), st.integers(min_n, small_hi), st.integers(min_n, max_n)]
+    if big_n and big_n > max_n:
+        return st.one_of(*(base * 3 + [st.integers(max_n, big_n)]))
+    return st.one_of(*base)
 
 
 @st.composite
 def xs(draw, n, integer=False):
     """Strictly increasing x of length n (offset + cumulative positive steps)."""
-    kind = draw(st.sampled_from(['i4', 'i4', 'i1000', 'unit'] if integer
-                                else ['i4', 'i4', 'i1000', 'float', 'unit']))
-    if kind == 'unit':
+    kind = draw(st.sampled_from(['i4', 'i4', 'i4', 'i1000', 'i1000', 'unit', 'unit', 'epoch'] if integer
+                                else ['i4', 'i4', 'i4', 'i1000', 'i1000', 'float', 'float', 'unit', 'unit', 'epoch']))
+    if kind == 'epoch':
+        # time-stamp like abscissa: huge offset, small exactly representable steps (x span is 1e-9
+        # or less of |x|) - strictly increasing and finite, so inside every property's domain
+        x0 = draw(st.sampled_from([1.7e9, 1.7e12]))
+        steps = draw(st.lists(st.integers(1, 4), min_size=n - 1, max_size=n - 1))
+    elif kind == 'unit':
         x0 = draw(st.integers(0, 3))
         steps = [1] * (n - 1)
     elif kind == 'i4':
@@ -108,7 +116,7 @@ def _scale(vals, k):
 
 
 @st.composite
-def curves(draw, min_n=2, max_n=40, families=None, integer_x=False, y01=False, scales=True):
+def curves(draw, min_n=2, max_n=40, families=None, integer_x=False, y01=False, scales=True, big_n=None):
     fam = draw(st.sampled_from(families or FAMILIES))
     if fam == 'repo':
         pts = draw(st.sampled_from(REPO_CURVES))
@@ -124,7 +132,7 @@ def curves(draw, min_n=2, max_n=40, families=None, integer_x=False, y01=False, s
         else:
             name = draw(st.sampled_from(names))
             t = trace(name)
-            n = draw(_sizes(max(min_n, 4), max_n))
+            n = min(draw(_sizes(max(min_n, 4), max_n, big_n)), len(t))
             stride = draw(st.sampled_from([1, 1, 2, 7, 31, 101]))
             stride = max(1, min(stride, (len(t) - 1) // n))
             start = draw(st.integers(0, len(t) - 1 - (n - 1) * stride))
@@ -137,7 +145,7 @@ def curves(draw, min_n=2, max_n=40, families=None, integer_x=False, y01=False, s
                 if not all(pts[i][0] < pts[i + 1][0] for i in range(len(pts) - 1)):
                     pts = [[float(i + 1), p[1]] for i, p in enumerate(pts)]
             return {'family': fam, 'pts': pts, 'trace': name}
-    n = draw(_sizes(min_n, max_n))
+    n = draw(_sizes(min_n, max_n, big_n))
     x = draw(xs(n, integer=integer_x or fam in ('pwl_dyadic', 'pwl_rational', 'pwl_decimal')))
     # ordinary magnitudes only: values below 1e-6 (whose squares approach the underflow range once a
     # 1e-9 scale is applied) are snapped to an exact zero
